@@ -73,7 +73,8 @@ def gen_world(rng, tier, *, min_species=2, max_species=5, allow_small_refs=True,
         n_res_total = sum(1 if kind == "sol" else len(set(zip(species[idx]["start"]["resnames"], species[idx]["start"]["resids"])))
                           for kind, idx in items)
         resid = 99999 - n_res_total + 1
-    atomid = 1
+    # (a system cut out of a larger one keeps its atom numbers: the first atom of the file need not be number 1)
+    atomid = rng.choice([1, 1, 1, 1, 1, 1, 2, 2001])
     gapped = resid < 90000 and rng.random() < 0.3
     share = rng.random() < 0.25          # numbering per complex / ion pair: neighbours of DIFFERENT species may share a number
     prev_key = None
